@@ -44,6 +44,38 @@ LEVEL = {
 
 H4_UNITS = {"contextlib._AsyncGeneratorContextManager.__aenter__", "contextlib._AsyncGeneratorContextManager.__aexit__"}
 H5_UNITS = {"contextlib.ExitStack.__aexit__"}
+
+
+def _role_unit(ctx, u: Unit, table) -> str:
+    """The canonical name of the table unit ``u`` belongs to: itself, or — for a private method that
+    only units of the table call (the table unit's decision logic moved into helpers, analysed by
+    C13 / C14 on the inlined view) — that caller."""
+    canon = ctx.pkg.canonical(u)
+    if canon in table:
+        return canon
+    if u.parent is None and u.cls is not None and u.qualname.rsplit(".", 1)[-1].startswith("_") \
+            and not u.qualname.rsplit(".", 1)[-1].startswith("__"):
+        from .common import callers_of
+        seen, todo, roots = {id(u)}, [u], set()
+        while todo:
+            x = todo.pop()
+            users = callers_of(ctx, x)
+            if not users:
+                return canon
+            for v in users:
+                cv = ctx.pkg.canonical(v)
+                if cv in table:
+                    roots.add(cv)
+                elif v.cls is u.cls and v.qualname.rsplit(".", 1)[-1].startswith("_") and id(v) not in seen:
+                    seen.add(id(v))
+                    todo.append(v)
+                else:
+                    return canon
+        if len(roots) == 1:
+            return roots.pop()
+    return canon
+
+
 SUPPRESSING = {"contextlib._AsyncGeneratorContextManager", "contextlib.ExitStack"}
 
 # documented protocol raises inside handlers: (unit, exception class)
@@ -132,7 +164,7 @@ def _census(ctx, u: Unit) -> None:
             ctx.count("handlers")
             names = caught_names(h)
             label = f"except {', '.join(names)}"
-            canon = ctx.pkg.canonical(u)
+            canon = _role_unit(ctx, u, H4_UNITS | H5_UNITS)
             if canon in H4_UNITS:
                 ctx.count("H4")
                 ctx.ok("R06.1", u, f"{label}: contextmanager classification (H4, decided by C13)")
@@ -184,7 +216,8 @@ def _census(ctx, u: Unit) -> None:
                         continue
                     cls = raised_class(ctx, u, sub)
                     ok = (ctx.pkg.canonical(u), cls) in PROTOCOL_RAISES
-                    if not ok and u.parent is None and u.qualname.rsplit(".", 1)[-1].startswith("_"):
+                    if not ok and u.parent is None and (u.qualname.rsplit(".", 1)[-1].startswith("_") or (
+                            u.cls is None and u.module.short.startswith("_") and not ctx.pkg._is_public(u))):
                         # a private helper raising on behalf of the documented operation(s) that call it
                         from .common import callers_of
                         users = callers_of(ctx, u)
@@ -274,7 +307,7 @@ def _aexit_falsy(ctx) -> None:
 
 # --------------------------------------------------------------------------- R06.4
 def _no_reuse(ctx, u: Unit) -> None:
-    if ctx.pkg.canonical(u) in H5_UNITS or ctx.pkg.canonical(u) in H4_UNITS:
+    if _role_unit(ctx, u, H4_UNITS | H5_UNITS) in H5_UNITS | H4_UNITS:
         return
     cfg = cfg_of(u)
     steps = [n for n in cfg.nodes if not n.tag and (n.kind == "pull" or is_user_call(ctx, u, n)
@@ -296,11 +329,12 @@ def _no_reuse(ctx, u: Unit) -> None:
             return b.tag == "exc" or any(k == "handler" for (k, _x) in b.regions)
 
         cont = reachable([start], edge_ok=exc_edge)
-        from .ownership import _names_aclose
+        from .ownership import _names_aclose, _is_close_helper_await
         again = [m for m in cont if m.kind == "pull"
                  or (is_user_call(ctx, u, m) and not _names_aclose(ctx, u, m.ast.func, m))
                  or (_is_step_await(ctx, u, m) and not _closing(m)
-                     and not _names_aclose(ctx, u, m.info.get("value"), m))]
+                     and not _names_aclose(ctx, u, m.info.get("value"), m)
+                     and not _is_close_helper_await(ctx, u, m, None))]
         ctx.count("failure_continuations")
         if again:
             ctx.fail("R06.4", u, again[0], "a source or user callable is used again on the exceptional "
